@@ -122,8 +122,49 @@ func copyProps(x interface{}) interface{} {
 		}
 		return acc
 	default:
+		// Typed maps and slices (map[string]string,
+		// []string, ...), which a script can write to just as
+		// well.
+		v := reflect.ValueOf(x)
+		switch v.Kind() {
+		case reflect.Map:
+			if v.IsNil() {
+				return x
+			}
+			acc := reflect.MakeMapWithSize(v.Type(), v.Len())
+			iter := v.MapRange()
+			for iter.Next() {
+				acc.SetMapIndex(iter.Key(), copyPropsValue(iter.Value()))
+			}
+			return acc.Interface()
+		case reflect.Slice:
+			if v.IsNil() {
+				return x
+			}
+			acc := reflect.MakeSlice(v.Type(), v.Len(), v.Len())
+			for i := 0; i < v.Len(); i++ {
+				acc.Index(i).Set(copyPropsValue(v.Index(i)))
+			}
+			return acc.Interface()
+		}
 		return x
 	}
+}
+
+// copyPropsValue is copyProps for an element of a typed map or slice.
+func copyPropsValue(v reflect.Value) reflect.Value {
+	switch v.Kind() {
+	case reflect.Map, reflect.Slice, reflect.Interface:
+		if v.Kind() == reflect.Interface && v.IsNil() {
+			return v
+		}
+		c := copyProps(v.Interface())
+		if c == nil {
+			return v
+		}
+		return reflect.ValueOf(c).Convert(v.Type())
+	}
+	return v
 }
 
 func protest(o *goja.Runtime, x interface{}) {
